@@ -53,7 +53,7 @@ CHECKS = {
 }
 
 # properties whose proof modules are merged into lean/ and whose check passes on the clean tree
-READY = ["C09"]
+READY = ["C02", "C08", "C09"]
 
 PENDING = {
     "C01": "check under construction in this round (proofs being merged)",
